@@ -91,6 +91,14 @@ def query(r, kind, **kw):
     return d
 
 
+def resample(r, a, stat, icl, ivs):
+    return {"s": "resample", "r": r, "a": a, "stat": stat, "icl": icl, "ivs": [(fr(x), fr(y)) for x, y in ivs]}
+
+
+def agg(r, g, ms):
+    return {"s": "agg", "r": r, "g": g, "ms": list(ms)}
+
+
 ARITH = ["add", "sub", "mul", "div"]
 REL = ["lt", "le", "gt", "ge", "eq", "ne"]
 LOG = ["and", "or", "xor"]
@@ -177,6 +185,8 @@ _READ = {"values": "RValues", "deltas": "RDeltas", "frame": "RFrame"}
 _IVC = {"left": "IvLeft", "right": "IvRight", "both": "IvBoth", "neither": "IvNeither"}
 _LS = {"left": "LimLeft", "right": "LimRight"}
 _HST = {"sum": "HSum", "frequency": "HFrequency", "density": "HDensity", "probability": "HProbability"}
+_SST = {"mean": "SMean", "integral": "SIntegral", "median": "SMedian", "mode": "SMode", "min": "SMin", "max": "SMax"}
+_GF = {"sum": "GSum", "mean": "GMean", "median": "GMedian", "min": "GMin", "max": "GMax", "logical_or": "GOr", "logical_and": "GAnd"}
 _AGG = {"integral": "AIntegral", "mean": "AMean", "median": "AMedian", "mode": "AMode", "min": "AMin", "max": "AMax",
         "var": "AVar"}
 
@@ -211,6 +221,16 @@ def cquery(s):
     if q == "agg":
         cl = "None" if s.get("closed") is None else f"(Some {_IVC[s['closed']]})"
         return f"(QAgg {_AGG[s['name']]} {coq_opt(s.get('lo'))} {coq_opt(s.get('hi'))} {cl})"
+    if q == "slicer":
+        ivs = clist(f"({cq(a)}, {cq(b)})" for a, b in s["ivs"])
+        return f"(QSlicer {_SST[s['stat']]} {_IVC[s['icl']]} {ivs})"
+    if q in ("cov", "corr"):
+        lc = "ClipPre" if s.get("clip", "pre") == "pre" else "ClipPost"
+        return f"({'QCov' if q == 'cov' else 'QCorr'} {s['b']} {coq_opt(s.get('lo'))} {coq_opt(s.get('hi'))} {cq(s.get('lag', 0))} {lc})"
+    if q == "rolling":
+        return f"(QRolling {cq(s['l'])} {cq(s['rr'])} {coq_opt(s.get('lo'))} {coq_opt(s.get('hi'))})"
+    if q == "describe":
+        return f"(QDescribe {coq_opt(s.get('lo'))} {coq_opt(s.get('hi'))} {clist(cq(x) for x in s['ps'])})"
     raise ValueError(q)
 
 
@@ -246,6 +266,11 @@ def cstmt(s):
         return f"SShift {s['r']} {s['a']} {cq(s['d'])}"
     if k == "diff":
         return f"SDiff {s['r']} {s['a']} {cq(s['d'])}"
+    if k == "resample":
+        ivs = clist(f"({cq(a)}, {cq(b)})" for a, b in s["ivs"])
+        return f"SResample {s['r']} {s['a']} {_SST[s['stat']]} {_IVC[s['icl']]} {ivs}"
+    if k == "agg":
+        return f"SAgg {s['r']} {_GF[s['g']]} {clist(str(m) for m in s['ms'])}"
     if k == "query":
         return f"SQuery {s['r']} {cquery(s)}"
     raise ValueError(k)
@@ -303,7 +328,7 @@ def shard_text(cases):
     """cases: list of (cid, mode, prog, seen)"""
     body = ";\n".join(ccase(*c) for c in cases)
     return ("Require Import SC.Corr.Check SC.Model.Prog SC.Model.Repr SC.Model.Masking SC.Model.Sampling "
-            "SC.Model.Stats SC.Base.Val.\n"
+            "SC.Model.Stats SC.Model.Slicing SC.Base.Val.\n"
             "From Coq Require Import List ZArith.\nImport ListNotations.\n"
             "Set Printing Width 1000000.\nSet Printing Depth 100000.\n"
             "Definition cases : list case := [\n" + body + "\n].\n"
